@@ -402,6 +402,8 @@ def c15(full):
             diag = "D5b"
         out.append(F(["C15"], "to_openql-raises", exc=oq["raises"], msg=oq.get("msg"), diag=diag))
         return out
+    if oq.get("again_same") is not None and oq["again_same"] != [True, True]:
+        out.append(F(["C15"], "second-export-differs", same_program_name=oq["again_same"][0], same_kernels=oq["again_same"][1]))
     got = []
     for name, calls in _flat_items(oq["items"]):
         got.extend(calls)
